@@ -168,15 +168,17 @@ Lemma decide_modify_addr : forall v o p e, decide_modify v o p = Ok e ->
   exists ta, addressed v o (RModify p) = Some ta /\ eff_for o e ta.
 Proof.
   intros v o p e H. unfold decide_modify in H. cbv zeta in H. simpl. destruct (is_v2 v).
-  - destruct (m_new p) as [[[n|] nv]|]; try discriminate.
+  - destruct (m_new p) as [[nn nv]|]; try discriminate.
+    destruct (kind_mismatch (m_current p) nn); try discriminate.
+    destruct nn as [n|]; try discriminate.
     destruct (negb (q_modifiable n)) eqn:M; try discriminate.
     destruct (q_multivalued n) eqn:MV.
-    + destruct (m_current p) as [c|]; [|discriminate].
+    + destruct (cur_val p) as [c|]; [|discriminate].
       destruct (index_of o n c) as [[i|]|] eqn:IO; try discriminate.
       destruct (index_of_multi _ _ _ _ MV IO) as [f [F I]]. rewrite F, I. simpl.
       eexists; split; [reflexivity|]. eapply set_by_index_eff; eauto. eapply first_index_lt; eauto.
     + assert (S : set_single o n nv = Ok e).
-      { destruct (m_current p) as [c|].
+      { destruct (cur_val p) as [c|].
         - destruct (index_of o n c) as [[i|]|]; try discriminate. assumption.
         - destruct (get_value o n); try discriminate; assumption. }
       destruct (set_single_sens _ _ _ _ M S) as [-> _]. rewrite sens_not_multi_field.
